@@ -47,3 +47,24 @@ func HandWritten() []*Case {
 		withSub(mk("h22", "two-letter-imported-package-name", "ph22", "type S struct{ V p2.T }\n", ""), "p2", "type T struct{ X string }\n"),
 	}
 }
+
+// ManyImports returns programs whose types come from several packages (so that the import lists
+// of the Go generators have several entries and map iteration order matters).
+func ManyImports() []*Case {
+	var out []*Case
+	for i, names := range [][]string{{"alpha", "beta", "gamma"}, {"aa", "bbb", "cccc", "ddddd", "eeee"}, {"one", "two"}} {
+		c := &Case{ID: "mi" + string(rune('0'+i)), Feat: []string{"hand:many-imports"}}
+		c.Main = &Pkg{Name: "pmi", Imports: map[string]string{}}
+		src := "type T struct {\n\tId int64\n"
+		for k, n := range names {
+			sub := &Pkg{Dir: n, Name: n, Files: []*File{{Name: "s.go", Decls: []*Decl{{Kind: "raw", Name: "s", Text: "type T struct{ X int }\ntype N int64\ntype L []int\n"}}}}}
+			c.Subs = append(c.Subs, sub)
+			c.Main.Imports[n] = c.PkgPath(sub)
+			src += "\tA" + string(rune('a'+k)) + " " + n + ".T\n\tB" + string(rune('a'+k)) + " " + n + ".N\n\tC" + string(rune('a'+k)) + " " + n + ".L\n"
+		}
+		src += "\tN sql.NullInt64\n\tW time.Time\n}\n"
+		c.Main.Files = []*File{{Name: "defs.go", Decls: []*Decl{{Kind: "raw", Name: "T", Text: src}}}}
+		out = append(out, c)
+	}
+	return out
+}
